@@ -33,7 +33,7 @@ func init() {
 			if m.C("overlapping_calls") < 10000 {
 				u = append(u, fmt.Sprintf("only %d overlapping calls", m.C("overlapping_calls")))
 			}
-			for _, c := range []string{"histories_sequential", "histories_concurrent", "snapshots_compared", "calls_eval", "calls_tryeval", "calls_dump", "calls_dumptable", "calls_failing", "programs_deep_stack", "programs_big_list_constants", "programs_event_mode", "race_histories", "list_bindings_from_refilled_buffers", "fresh_context_set_flows", "programs_self_recursive"} {
+			for _, c := range []string{"histories_sequential", "histories_concurrent", "snapshots_compared", "calls_eval", "calls_tryeval", "calls_dump", "calls_dumptable", "calls_failing", "programs_deep_stack", "programs_big_list_constants", "programs_event_mode", "race_histories", "list_bindings_from_refilled_buffers", "fresh_context_set_flows", "programs_self_recursive", "one_shot_eval_calls"} {
 				if m.C(c) == 0 {
 					u = append(u, c+" = 0")
 				}
@@ -577,7 +577,52 @@ func c07Run(w *W, idx int, race bool) {
 			w.Fail("program-modified-by-evaluation", "the compiled program differs after the history (snapshot %v, dump %v, table %v)\nsource: %s\nconfig: %s", snap != p.snap, d != p.dump, t != p.table, p.src, p.cfg)
 		}
 	}
+	c07OneShot(w, r)
 	if idx%16 == 0 {
 		w.Sample(map[bool]string{true: "concurrent", false: "sequential"}[concurrent], fmt.Sprintf("%d goroutines x %d calls over %d shared programs, e.g. %s", goroutines, calls, len(pool), firstN(pool[0].src, 200)))
+	}
+}
+
+// c07OneShot: the option-less helper eval.Eval(src, vals) takes its variables AND its operators from vals. Calls with the
+// same source and the same names but other operator functions and other values are independent of each other.
+func c07OneShot(w *W, r *rand.Rand) {
+	srcs := []string{"(over amount)", "(and flag (over amount))", "(if (over amount) (+ amount 1) (scale amount))", "(= (scale amount) 10)"}
+	src := srcs[r.Intn(len(srcs))]
+	for round := 0; round < 4; round++ {
+		limit := int64(r.Intn(100))
+		factor := int64(1 + r.Intn(5))
+		amount := int64(r.Intn(100))
+		flag := r.Intn(2) == 0
+		vals := map[string]interface{}{
+			"amount": amount, "flag": flag,
+			"over": func(_ *eval.Ctx, p []eval.Value) (eval.Value, error) {
+				return p[0].(int64) > limit, nil
+			},
+			"scale": eval.Operator(func(_ *eval.Ctx, p []eval.Value) (eval.Value, error) {
+				return p[0].(int64) * factor, nil
+			}),
+		}
+		var want interface{}
+		switch src {
+		case srcs[0]:
+			want = amount > limit
+		case srcs[1]:
+			want = flag && amount > limit
+		case srcs[2]:
+			if amount > limit {
+				want = amount + 1
+			} else {
+				want = amount * factor
+			}
+		default:
+			want = amount*factor == 10
+		}
+		o := guard(func() (eval.Value, error) { return eval.Eval(src, vals) })
+		w.Evals++
+		w.Inc("one_shot_eval_calls")
+		if o.Panic != nil || o.Err != nil || !valEq(o.V, want) {
+			w.Fail("call-result-differs-from-isolated/one-shot-eval", "eval.Eval(%q, vals) = %s, expected %s (call %d with this source in a row; amount=%d flag=%v, this call's operators: over = amount > %d, scale = amount * %d)", src, o, valText(want), round+1, amount, flag, limit, factor)
+			return
+		}
 	}
 }
